@@ -1,6 +1,6 @@
 (* Correspondence for C16: runs Model.Auth on the byte chunks the scripted client wrote to a
    real server peer carrying the auth checker plugin.
-   case inputs  = (nLIMIT (nRECVS sPROPAGATE sMODE xTOKEN nPANIC-AT sBEFORE sAFTER) (xCHUNK ...) sENTRY-POINT)
+   case inputs  = (nLIMIT (nRECVS sPROPAGATE sMODE xTOKEN nPANIC-AT sBEFORE sAFTER sSET-ID) (xCHUNK ...) sENTRY-POINT sCONFIG-ORDER)
    observations = ((sSERVED nINDEXED sLISTED) sEOF-BEFORE (sSERVED nINDEXED sLISTED)
                    (nRECVONCE-CALLS nREFUSED) (zAUTH-REPLY-CODE ...) (nOTHER-BEFORE nOTHER-AFTER) nNEXT-POSTACCEPT nPOSTDISCONNECT
                    (nHOOK x16) (zCALL-SEQ ...) (zPUSH-SEQ ...) ((zSEQ zCODE) ...) nOTHER-FRAMES)  *)
@@ -87,7 +87,7 @@ Definition run_bearer (limit sends : N) (prop : bool) (reply : bytes) (closes : 
   let '(res, sent) := bearer status_code_simple (N.to_nat sends) prop (option_map fst first) in
   let ok := match res with DialOk => true | DialFail _ => false end in
   let loop_buf := match sends, first with 0, _ => [] | _, Some (_, rest) => rest | _, None => [] end in
-  let fin := pump status_code_simple info_dec_simple nobody nobody limit (mkChecker 1 false (fun _ => true) 0 None None)
+  let fin := pump status_code_simple info_dec_simple nobody nobody limit (mkChecker 1 false (fun _ => true) 0 None None 0)
                   (mkSt (Running false) loop_buf true false true true []) in
   let t := if ok then trace fin else [] in
   VL [vbool ok; VN (if ok && negb closes then 1 else 0); VN (N.of_nat sent); VN 0; vbool true;
@@ -101,8 +101,8 @@ Definition run (inp : val) : option val :=
       if sym_eqb tag "bearer"
       then Some (run_bearer limit sends (sym_eqb prop "true") reply (sym_eqb closes "true"))
       else None
-  | VL [VN limit; VL [VN recvs; prop; mode; VB token; VN panic_at; hb; ha]; VL chunks; _entry] =>
-      (* _entry = sserveconn | slistener: Peer.ServeConn and Peer.ListenAndServe (serveListener) run the
+  | VL [VN limit; VL [VN recvs; prop; mode; VB token; VN panic_at; hb; ha; sid]; VL chunks; _entry; _order] =>
+      (* _entry = sserveconn | slistener, _order = how the plugin chain was put on the peer: Peer.ServeConn and Peer.ListenAndServe (serveListener) run the
          same accept path; the model does not look at it, so both entry points must give the
          observations of the one machine *)
       match chunks_of chunks with
@@ -112,7 +112,8 @@ Definition run (inp : val) : option val :=
                         else if sym_eqb mode "none" then (fun _ => false)
                         else (fun i => bytes_eqb i token) in
           let ck := mkChecker (N.to_nat recvs) (sym_eqb prop "true") verify (N.to_nat panic_at)
-                              (hookb_of hb) (hookb_of ha) in
+                              (hookb_of hb) (hookb_of ha)
+                              (if sym_eqb sid "pre" then 1%nat else if sym_eqb sid "post" then 2%nat else 0%nat) in
           let stp := step status_code_simple info_dec_simple route_call_h route_push_h limit ck in
           let s0 := pump status_code_simple info_dec_simple route_call_h route_push_h limit ck init in
           let mid := fold_left stp (map Bytes cs) s0 in
@@ -132,9 +133,26 @@ Definition run (inp : val) : option val :=
                     VL (map VZ (zsort (flat_map (fun e => match e with EvHandler false q => [q] | _ => [] end) t)));
                     VL (map (fun p => VL [VZ (fst p); VZ (snd p)])
                             (psort (flat_map (fun e => match e with EvReply q c => [(q, c)] | _ => [] end) t)));
-                    VN 0])
+                    VN 0;
+                    (* the resident session holding the claimed id, before and after the half-close *)
+                    (let res := fun (t0 : list ev) =>
+                       if sym_eqb sid "none" then vsym "none"
+                       else if existsb (fun e => match e with EvDisplace => true | _ => false end) t0
+                            then vsym "displaced" else vsym "alive" in
+                     VL [res (trace mid); res t])])
       end
   | _ => None
   end.
 
-Definition check_line := check_line_with run.
+(* two connections whose accept phases overlapped: (soverlap CASE-A CASE-B) -> (OBS-A OBS-B).  Sessions of
+   different connections share nothing in the accept path: each must show what it shows alone. *)
+Definition run_top (inp : val) : option val :=
+  match inp with
+  | VL [t; a; b] =>
+      if sym_eqb t "overlap"
+      then match run a, run b with Some oa, Some ob => Some (VL [oa; ob]) | _, _ => None end
+      else run inp
+  | _ => run inp
+  end.
+
+Definition check_line := check_line_with run_top.
